@@ -14,7 +14,7 @@
     extensionality axiom is used; [getf_ext] / [save_step_ext] show that looks and save steps respect [seqv].
 
     Closed counterexamples: a writer that fabricates ids for a file whose FACEIDS lump is empty (the defect repaired
-    by fix b7b21cf) or pads a short lump (fix 1c0c7ad) violates [side_ok] and changes the lump. *)
+    by fix b7b21cf) or pads a short lump (fix 81886b6) violates [side_ok] and changes the lump. *)
 From Coq Require Import List Arith Bool Lia.
 From SV Require Import SM.LazyLumps SM.LazyLumpsProofs.
 Import ListNotations.
@@ -222,7 +222,7 @@ Definition sx_wr (v : nat) (p : list nat) : list (list nat) := [p].
 Definition g_side : graph := [ mkV [2] [] [] [2] ].
 Definition sx_file (ids : list nat) : state (list nat) (list nat) :=
   mkS (fun l => if Nat.eqb l 2 then [7; 8] else if Nat.eqb l 5 then ids else []) (fun _ => None).
-(* a writer that always writes one id per face, 0 where the reader found none (before fixes b7b21cf / 1c0c7ad) *)
+(* a writer that always writes one id per face, 0 where the reader found none (before fixes b7b21cf / 81886b6) *)
 Definition sx_pad (have : list nat) (v : nat) (p : list nat) : list (nat * list nat) :=
   [(5, have ++ repeat 0 (length p - length have))].
 (* today's writer: the ids as read, nothing invented; no store at all when there are none *)
@@ -247,7 +247,7 @@ Proof.
     cbn in Hl. destruct Hl as [E|[]]. discriminate.
 Qed.
 
-(** Ids fabricated for an empty FACEIDS lump (fix b7b21cf) and a short lump padded with zeros (fix 1c0c7ad): the
+(** Ids fabricated for an empty FACEIDS lump (fix b7b21cf) and a short lump padded with zeros (fix 81886b6): the
     lump without a view changes although every condition on the graph holds; what fails is [side_ok]. *)
 Example side_store_fabricated_refuted :
   raw (snd (sx_save (sx_pad []) (sx_run [0] (sx_file [])))) 5 = [0; 0] /\
